@@ -10,7 +10,7 @@ func init() {
 // that connect at arbitrary moments (their own goroutines). After every call that returns nil the
 // promised state is checked once the system is quiescent.
 func HarnessC15Lifecycle() {
-	seq := vsymParam("seq") // letters: S Start, T Stop, R Restart
+	seq := vsymParam("seq") // letters: S Start, T Stop, R Restart, D plain port disabled by configuration while running
 	vsymTag("seq", seq)
 	vsymSchedBound(vsymParamInt("preempt", 1))
 	vsymUnwind(400)
@@ -22,6 +22,7 @@ func HarnessC15Lifecycle() {
 		server.SetTLSConfig(&tls.Config{})
 		ports = append(ports, ":6380")
 	}
+	opened := append([]string{}, ports...) // every port a listener was ever opened on: all must be free after Stop
 	nclients := vsymParamInt("clients", 1)
 	type client struct {
 		conn     *vconn
@@ -71,6 +72,12 @@ func HarnessC15Lifecycle() {
 			err = server.Stop()
 		case 'R':
 			err = server.Restart()
+		case 'D':
+			// the configuration changes while the server runs (SetPort / CONFIG SET port 0): the
+			// listener opened by Start stays the server's to close
+			server.SetPort(0)
+			ports = ports[1:]
+			vsymCover("port-disabled-while-running")
 		}
 		inCall = false
 		if err != nil {
@@ -83,6 +90,18 @@ func HarnessC15Lifecycle() {
 			running = true
 			vsymQuiesce()
 			probe(string(seq[i : i+1]))
+			for _, port := range opened {
+				enabled := false
+				for _, q := range ports {
+					if q == port {
+						enabled = true
+					}
+				}
+				if !enabled {
+					l := vPorts[port]
+					vsymAssert(l == nil || l.closed, "disabled-port-released-by-restart")
+				}
+			}
 			// while running the registry holds exactly the connections being served
 			served := 0
 			for _, c := range server.Conns() {
@@ -99,7 +118,7 @@ func HarnessC15Lifecycle() {
 				vsymFail("no-server-goroutine-remains-when-stop-returns")
 			}
 			vsymQuiesce()
-			for _, port := range ports {
+			for _, port := range opened {
 				l := vPorts[port]
 				vsymAssert(l == nil || l.closed, "port-can-be-bound-again-after-stop")
 			}
